@@ -259,6 +259,29 @@ def completeness(task):
         released = []
         bad = None
         seq = list(order) + list(range(n, n + cont))
+        # reference: frame i can be released once frames i .. i+m-1 are complete, the first packet of frame i+m has arrived and
+        # all earlier frames are out (m = max(prefetch, 1)).  The implementation releases at most one frame per arrival, so the
+        # literal statement ("every frame except the trailing prefetch window is released") can be demanded at the END OF THE
+        # STREAM, without any continuation, exactly for the arrival orders in which no single arrival makes two frames releasable.
+        m = max(prefetch, 1)
+        arrived, ref_released, one_per_arrival = set(), 0, True
+        first_pkt = {}
+        for e in range(n + 1):
+            first_pkt.setdefault(stream.frame_of(e), e)
+
+        def frame_complete(f):
+            lo = first_pkt[f]
+            hi = first_pkt.get(f + 1, n)
+            return all(x in arrived for x in range(lo, hi))
+        for ext in order:
+            arrived.add(ext)
+            newly = 0
+            while ref_released + m <= total_frames and all(frame_complete(f) for f in range(ref_released, ref_released + m)) and \
+                    first_pkt.get(ref_released + m, n) in arrived:
+                ref_released += 1
+                newly += 1
+            if newly > 1:
+                one_per_arrival = False
         for k, ext in enumerate(seq):
             try:
                 pli, frame = jb.add(mkpacket(ext, seq0, 0, stream))
@@ -277,6 +300,10 @@ def completeness(task):
             if got != list(range(total_frames)) or not whole:
                 bad = ("jitter/completeness", "frames released (in order of release) %r, expected each of 0..%d exactly once and whole" % (
                     got, total_frames - 1))
+            elif one_per_arrival and released_at_end_of_stream != ref_released:
+                bad = ("jitter/completeness-at-stream-end", "%d frames released when the last packet of the stream had arrived, %d were complete, "
+                       "followed by the next frame's first packet and in turn (no arrival made two frames releasable)" % (
+                           released_at_end_of_stream, ref_released))
             elif list(order) == list(range(n)):
                 # in-order arrival: exactly the trailing prefetch window is still held when the stream ends
                 want = total_frames - max(prefetch, 1)
@@ -366,7 +393,7 @@ def run(tier, seed):
              "JitterBuffer: no exception, occupancy <= capacity, released frame = consecutive received packets of one frame with "
              "the frame's timestamp, no packet in two frames and increasing order unless a packet arrived >= 100 late, video: "
              "discarding held packets implies the key-frame flag. Completeness: all permutations (first packet first) with "
-             "displacement <= d of a 9-packet / 5-frame stream followed by an in-order continuation: every frame released exactly "
+             "displacement <= d of a 9-packet / 5-frame stream followed by an in-order continuation (and, for the orders in which no arrival makes two frames releasable at once, already when the stream ends): every frame released exactly "
              "once, whole, in order; in-order arrival: exactly the trailing max(prefetch,1) frames held at the end. states = "
              "distinct (buffer contents relative to highest, late flag)" % (D, D + 1),
         assumptions=["oracle comparisons use harness-side extended packet indices; 16-bit aliasing (two packets 65536 apart) is "
